@@ -73,6 +73,15 @@ func (c *Class) classIdentifierProcessing(
 		}
 
 		if nextT.IsTargetIdentifier("private") {
+			isCall, err := e.inlineVisibility(p, *ctx, "private")
+			if err != nil {
+				p.Fatal(*ctx, err)
+			}
+
+			if isCall {
+				continue
+			}
+
 			methodT := base.GetMethodT("Builtin", "", "private", false)
 			if methodT != nil {
 				ctx.StartPrivate()
@@ -83,6 +92,15 @@ func (c *Class) classIdentifierProcessing(
 		}
 
 		if nextT.IsTargetIdentifier("protected") {
+			isCall, err := e.inlineVisibility(p, *ctx, "protected")
+			if err != nil {
+				p.Fatal(*ctx, err)
+			}
+
+			if isCall {
+				continue
+			}
+
 			ctx.StartProtected()
 			defer ctx.EndProtected()
 
@@ -90,6 +108,15 @@ func (c *Class) classIdentifierProcessing(
 		}
 
 		if nextT.IsTargetIdentifier("public") {
+			isCall, err := e.inlineVisibility(p, *ctx, "public")
+			if err != nil {
+				p.Fatal(*ctx, err)
+			}
+
+			if isCall {
+				continue
+			}
+
 			methodT := base.GetMethodT("Builtin", "", "public", false)
 			if methodT != nil {
 				ctx.EndPrivate()
@@ -290,6 +317,15 @@ func (c *Class) Evaluation(
 		}
 
 		if nextT.IsTargetIdentifier("private") {
+			isCall, err := e.inlineVisibility(p, ctx, "private")
+			if err != nil {
+				p.Fatal(ctx, err)
+			}
+
+			if isCall {
+				continue
+			}
+
 			methodT := base.GetMethodT("Builtin", "", "private", false)
 			if methodT != nil {
 				ctx.StartPrivate()
@@ -300,6 +336,15 @@ func (c *Class) Evaluation(
 		}
 
 		if nextT.IsTargetIdentifier("protected") {
+			isCall, err := e.inlineVisibility(p, ctx, "protected")
+			if err != nil {
+				p.Fatal(ctx, err)
+			}
+
+			if isCall {
+				continue
+			}
+
 			ctx.StartProtected()
 			defer ctx.EndProtected()
 
@@ -307,6 +352,15 @@ func (c *Class) Evaluation(
 		}
 
 		if nextT.IsTargetIdentifier("public") {
+			isCall, err := e.inlineVisibility(p, ctx, "public")
+			if err != nil {
+				p.Fatal(ctx, err)
+			}
+
+			if isCall {
+				continue
+			}
+
 			methodT := base.GetMethodT("Builtin", "", "public", false)
 			if methodT != nil {
 				ctx.EndPrivate()
